@@ -13,6 +13,9 @@ import (
 	"strings"
 	"time"
 	"unicode/utf8"
+
+	"google.golang.org/protobuf/reflect/protoreflect"
+	"google.golang.org/protobuf/types/dynamicpb"
 )
 
 // ---- C09: requests are dispatched only when every required header is present and valid --------
@@ -96,13 +99,13 @@ func headerValuePool(ty, format string) (directed, dense []string) {
 			"a..b@c.d", ".a@c.d", "a!#$%&'*+-/=?^_`{|}~@x.y", "a@\xff"}, corruptions("user.name@example.com")
 	case "date-time":
 		return []string{"2024-02-29T10:20:30Z", "2024-02-29t10:20:30Z", "2024-02-29T10:20:30z", "2024-02-29t10:20:30z", "2024-02-29T10:20:30+00:00",
-			"2016-12-31T23:59:60Z", "2016-12-31T15:59:60-08:00", "2016-12-31T22:59:60Z", "2016-12-31T23:59:60.5Z", "2016-12-31T23:59:61Z",
-			"2024-02-29T1:20:30Z", "2024-02-29T10:20:30,5Z", "2024-02-29T10:20:30.Z", "2024-02-29T10:20:30.123456789012Z",
-			"2024-02-29T10:20:30+24:00", "2024-02-29T10:20:30+23:60", "2024-02-29T10:20:30-24:60", "2024-02-29T10:20:30+25:00", "2024-02-29T10:20:30+23:61", "2024-02-29T10:20:30+2400",
-			"2024-02-29T10:20:30+0:00", "2024-02-29T10:20:30 00:00", "2023-02-29T10:20:30Z", "1900-02-29T00:00:00Z", "2000-02-29T00:00:00Z", "0000-02-29T00:00:00Z",
-			"2024-00-10T00:00:00Z", "2024-13-10T00:00:00Z", "2024-04-31T00:00:00Z", "2024-04-00T00:00:00Z", "2024-01-32T00:00:00Z", "2024-01-01T24:00:00Z",
-			"2024-01-01T23:60:00Z", "2024-01-01T23:59:59.999999999Z", "9999-12-31T23:59:59Z", "2024-02-29 10:20:30Z", "2024-02-29T10:20:30", "2024-02-29", "",
-			"2024-02-29T1:20:30,5+24:60", "2024-2-29T10:20:30Z", "02024-02-29T10:20:30Z", "+024-02-29T10:20:30Z", "2024-02-29T10:20:30ZZ", "2024-02-29T10:20:30Z\xff"},
+				"2016-12-31T23:59:60Z", "2016-12-31T15:59:60-08:00", "2016-12-31T22:59:60Z", "2016-12-31T23:59:60.5Z", "2016-12-31T23:59:61Z",
+				"2024-02-29T1:20:30Z", "2024-02-29T10:20:30,5Z", "2024-02-29T10:20:30.Z", "2024-02-29T10:20:30.123456789012Z",
+				"2024-02-29T10:20:30+24:00", "2024-02-29T10:20:30+23:60", "2024-02-29T10:20:30-24:60", "2024-02-29T10:20:30+25:00", "2024-02-29T10:20:30+23:61", "2024-02-29T10:20:30+2400",
+				"2024-02-29T10:20:30+0:00", "2024-02-29T10:20:30 00:00", "2023-02-29T10:20:30Z", "1900-02-29T00:00:00Z", "2000-02-29T00:00:00Z", "0000-02-29T00:00:00Z",
+				"2024-00-10T00:00:00Z", "2024-13-10T00:00:00Z", "2024-04-31T00:00:00Z", "2024-04-00T00:00:00Z", "2024-01-32T00:00:00Z", "2024-01-01T24:00:00Z",
+				"2024-01-01T23:60:00Z", "2024-01-01T23:59:59.999999999Z", "9999-12-31T23:59:59Z", "2024-02-29 10:20:30Z", "2024-02-29T10:20:30", "2024-02-29", "",
+				"2024-02-29T1:20:30,5+24:60", "2024-2-29T10:20:30Z", "02024-02-29T10:20:30Z", "+024-02-29T10:20:30Z", "2024-02-29T10:20:30ZZ", "2024-02-29T10:20:30Z\xff"},
 			append(corruptions("2024-02-29T10:20:30Z"), corruptions("2023-11-30T23:59:59.125+05:30")...)
 	case "date":
 		return []string{"2024-02-29", "2023-02-29", "1900-02-29", "2000-02-29", "0000-02-29", "2024-13-01", "2024-00-10", "2024-04-31", "2024-04-00", "2024-4-01", "2024-04-1",
@@ -462,6 +465,10 @@ func z3TagsC09(c *c09Case, note string) []string {
 	}
 	return nil
 }
+func dynamicpbNew(md protoreflect.MessageDescriptor) *dynamicpb.Message {
+	return dynamicpb.NewMessage(md)
+}
+
 func stamp(run *Run, what string) {
 	if os.Getenv("VERIF_TIMING") != "" {
 		fmt.Fprintf(os.Stderr, "[%6.1fs] %s\n", time.Since(run.Start).Seconds(), what)
@@ -624,6 +631,11 @@ func CheckC09(run *Run) {
 		run.Results = append(run.Results, cr)
 	}
 	stamp(run, "go model evaluated")
+	pubByOp := map[string][]*Header{}
+	for _, c := range cases {
+		pubByOp[c.svc.Name+"."+c.md.Name] = c.pub
+	}
+	run.Results = append(run.Results, c09ClientHelpers(run, s, req, pubByOp)...)
 	ts := <-tsCh
 	stamp(run, "ts side done")
 	run.Results = append(run.Results, ts.res...)
@@ -834,4 +846,165 @@ func dumpResults(run *Run) {
 	for _, r := range run.Results {
 		enc.Encode(r)
 	}
+}
+
+// c09ClientHelpers: the generated Go client (it compiles for repeated header declarations since e425100)
+// sets headers through its typed helper options; the request it puts on the wire is fed to the same gate
+// model and oracle as the raw requests.
+func c09ClientHelpers(run *Run, s *Session, req *Request, pub map[string][]*Header) []*CaseResult {
+	type hcase struct {
+		c            *c09Case
+		client, call map[string]string
+		want         []hdrLine // what the options ask the client to send
+	}
+	var hcs []*hcase
+	for _, svc := range req.Files[0].Services {
+		svcFn := map[string]bool{}
+		for _, h := range svc.Headers {
+			svcFn[headerFuncName(h.Name)] = true
+		}
+		for mi, md := range svc.Methods {
+			if svc.Name == "Types" && mi%3 != 1 {
+				continue
+			}
+			// one value per distinct helper function
+			type hv struct {
+				name, fn string
+				decl     *Header
+			}
+			var hs []hv
+			seen := map[string]bool{}
+			for _, h := range append(append([]*Header{}, svc.Headers...), md.Headers...) {
+				fn := headerFuncName(h.Name)
+				if seen[fn] {
+					for i := range hs {
+						if hs[i].fn == fn {
+							hs[i].decl = h // the later declaration decides the value used
+						}
+					}
+					continue
+				}
+				seen[fn] = true
+				hs = append(hs, hv{h.Name, fn, h})
+			}
+			for variant := 0; variant < 3+len(hs); variant++ {
+				hc := &hcase{c: &c09Case{svc: svc, md: md, pub: pub[svc.Name+"."+md.Name], family: "client-helper"}, client: map[string]string{}, call: map[string]string{}}
+				for i, h := range hs {
+					v := headerGoodValue(h.decl.Type, h.decl.Format)
+					switch {
+					case variant == 1 && i == 0: // first header left out
+						continue
+					case variant >= 3 && variant-3 == i: // this one gets a value no reading accepts
+						v = "\x7e\x7e"
+						if h.decl.Type == "array" || (stringTyped(h.decl.Type) && h.decl.Format == "") {
+							continue
+						}
+					}
+					if svcFn[h.fn] && variant != 2 {
+						hc.client[h.fn] = v
+					} else {
+						hc.call[h.fn] = v
+					}
+					hc.want = append(hc.want, hdrLine{h.name, v})
+				}
+				hcs = append(hcs, hc)
+			}
+		}
+	}
+	scen := make([]any, len(hcs))
+	for i, hc := range hcs {
+		in := s.Gens[0].Built.MessageDesc("rthdr.v1.Req")
+		m := dynamicpbNew(in)
+		SetField(m, "note", "n")
+		scen[i] = map[string]any{"id": fmt.Sprint(i), "kind": "call", "pkg": req.ID, "service": hc.c.svc.Name, "method": hc.c.md.Name, "req": WireHex(m),
+			"script": map[string]any{}, "opts": map[string]any{"ContentType": "application/json", "HelperClient": hc.client, "HelperCall": hc.call}}
+	}
+	raw, err := RunScenarios(s.Runner, scen, 4)
+	if err != nil {
+		run.Fatal("runner: %v", err)
+	}
+	defs, declName := c09Defs(req)
+	var ccs []CoqCase
+	var results []*CaseResult
+	for i, hc := range hcs {
+		var o RunnerObsX
+		if err := json.Unmarshal(raw[i], &o); err != nil || o.Error != "" {
+			run.Fatal("client-helper case %d: %v %s", i, err, o.Error)
+		}
+		c := hc.c
+		declared := map[string]bool{}
+		for _, h := range append(append([]*Header{}, c.svc.Headers...), c.md.Headers...) {
+			declared[strings.ToLower(h.Name)] = true
+		}
+		holds, note := true, ""
+		if len(o.Requests) == 0 {
+			holds, note = false, "the client sent no request"
+		} else {
+			var names []string
+			for k := range o.Requests[0].Header {
+				if declared[strings.ToLower(k)] {
+					names = append(names, k)
+				}
+			}
+			sort.Strings(names)
+			for _, k := range names {
+				for _, v := range o.Requests[0].Header[k] {
+					c.lines = append(c.lines, hdrLine{k, v})
+				}
+			}
+		}
+		obs := &c09Obs{Status: o.Status, Handler: len(o.HandlerCalls) > 0, BodyRead: false, Violations: []string{}}
+		if o.Status == 400 {
+			fs := violationFields(&o.RunnerObs)
+			if fs == nil {
+				fs = []string{"<undecodable 400 body>"}
+			}
+			sort.Strings(fs)
+			obs.Violations = fs
+		}
+		// the runner does not count body reads on the client path: take the model's word structurally
+		// (body read iff the gate passed on a body verb), checked on the raw path
+		bodyVerb := c.md.Verb == "POST" || c.md.Verb == "PUT" || c.md.Verb == "PATCH"
+		obs.BodyRead = obs.Handler && bodyVerb
+		if holds {
+			// every header asked for through a helper option is on the wire with that value
+			// (two declarations that differ in letter case only address the same HTTP header: one of the
+			// requested values is sent)
+			for _, w := range hc.want {
+				v, ok := requestHeader(c.lines, w.Name)
+				match := false
+				for _, w2 := range hc.want {
+					if strings.EqualFold(w2.Name, w.Name) && w2.Value == v {
+						match = true
+					}
+				}
+				if !ok || !match {
+					holds, note = false, "helper option for "+w.Name+" did not put the value on the wire"
+				}
+			}
+		}
+		if holds {
+			holds, note = oracleC09(c, obs)
+		}
+		var lineTerms []string
+		var lineJ []any
+		for _, l := range c.lines {
+			lineTerms = append(lineTerms, "("+CoqStr(l.Name)+", "+CoqStr(l.Value)+")")
+			lineJ = append(lineJ, []string{l.Name, l.Value})
+		}
+		cr := &CaseResult{ID: fmt.Sprintf("helper:%s.%s#%d", c.svc.Name, c.md.Name, i), Family: c.family,
+			Input: map[string]any{"service": c.svc.Name, "method": c.md.Name, "helper_client": hc.client, "helper_call": hc.call, "request_headers_on_the_wire": lineJ},
+			Obs:   obs, OracleHolds: holds, OracleNote: note, NonTrivial: true, Features: []string{"client-helper", "verb:" + c.md.Verb}}
+		results = append(results, cr)
+		ccs = append(ccs, CoqCase{Term: fmt.Sprintf("(%s, %s, [%s], %s, true)", declName[c.svc.Name], declName[c.svc.Name+"."+c.md.Name],
+			strings.Join(lineTerms, "; "), CoqBool(bodyVerb)), Obs: obs})
+	}
+	vs, err := CoqRun(run.WorkDir, "c09helper", "From Sebuf Require Import Text Json Schema Headers.\n", defs, "c09_case", "predict_C09", ccs, 4)
+	if err != nil {
+		run.Fatal("model evaluation (client helpers): %v", err)
+	}
+	for i, cr := range results {
+		cr.Apply(vs[i])
+	}
+	return results
 }
